@@ -12,7 +12,8 @@ Readings taken where the statement leaves room (the current code is right under 
   * "gives the analytic Rabi oscillation": the emulator integrates a spline through 1 ns samples, so the area
     of a constant pulse is only defined up to Omega * 1 ns; populations are compared within that band.
   * "the same states" (legacy vs V2): same state at the same absolute time within the ODE solver's accuracy
-    (band 2e-3 on amplitudes / density-matrix entries; genuine differences are O(0.1)).
+    (band 5e-3 on amplitudes / density-matrix entries: V2 integrates without max_step and is
+    less accurate at pulse edges, observed <= 9e-4; genuine differences are O(0.01 .. 1)).
   * statistical clauses: 6-sigma bounds on seeded samples.
   * a V2 observable with its own evaluation times ALSO stores at the default times in this tree; that is C20's
     subject ("exactly the requested times"): here every stored state is compared, extra times are only counted.
@@ -50,7 +51,7 @@ TWO = {"ground-rydberg": "rg", "digital": "gh", "XY": "ud"}       # documented s
 CORE_NAME = {"rg": "ground-rydberg", "gh": "digital", "ud": "XY", "rgh": "all"}
 IDS = ["q7", "a", "10", "B"]                                      # register order is NOT the sorted order
 SPACING = 2000.0                                                  # um: isolated atoms
-STATE_TOL = 2e-3      # "same state" band (solver accuracy), see module docstring
+STATE_TOL = 5e-3      # "same state" band, see module docstring (observed <= 9e-4 outside the finding classes)
 NORM_TOL = 1e-3       # | |psi|^2 - 1 |, |tr rho - 1|  (observed <= 4e-5; the solvers run with normalize_output=False)
 HERM_TOL = 1e-8
 POS_TOL = 1e-5        # lambda_min >= -POS_TOL
@@ -183,6 +184,19 @@ def classify_v2_exception(e, asks_end, multi_default, T, dim, stochastic):
     return "other"
 
 
+def v2_last(R, r, tag, sig0, det0):
+    """Value stored by V2 at the end of the sequence (relative time 1) for `tag`, or None (reported)."""
+    vals = r.get_tagged_results().get(tag, [])
+    if not vals:
+        R.bad({**sig0, "clause": "v2_holds_requested_times", "what": f"no_{tag}_stored"}, det0)
+        return None
+    tlast = float(r.get_result_times(tag)[-1])
+    if abs(tlast - 1.0) > 0.5 / max(1, r.total_duration) + 1e-12:
+        R.bad({**sig0, "clause": "v2_holds_requested_times", "what": f"{tag}_not_at_end"}, {**det0, "last_time": tlast})
+        return None
+    return vals[-1]
+
+
 # ------------------------------------------------------------------------------------- EmuBits: object level
 @_guard
 def bits_worker(rec):
@@ -208,7 +222,7 @@ def bits_worker(rec):
     noerr = f == (0, 0)
     eps, epsp = f[0] / 4, f[1] / 4
     certain = all(x in (0, 4 ** (n + 1)) for x in rec["d"])
-    N = 40 if certain else NSHOTS
+    N = 40 if certain else (1000 if noerr else NSHOTS)
     exp_dist = {bitstr(k, n): p[k] for k in range(2 ** n) if p[k] > 0}
     can_coherent = ("all" in bname) or (bname.replace("_with_error", "") == mb)
 
@@ -385,18 +399,19 @@ def emu_prep_worker(rec):
         return R.out()
     if tuple(r.atom_order) != tuple(IDS[:n]):
         R.bad({**sig0, "clause": "register_order", "api": "QutipBackendV2.run"}, {**det0, "atom_order": r.atom_order})
-    c2 = r.get_tagged_results()["bitstrings"][-1]
-    msg = check_counts(c2, p, N, n, slack)
+    c2 = v2_last(R, r, "bitstrings", sig0, det0)
+    msg = check_counts(c2, p, N, n, slack) if c2 is not None else None
     if msg:
         R.bad({**sig0, "clause": "bit_convention" if noerr else "detection_errors",
                "api": "QutipBackendV2.run/BitStrings", "f": list(f)},
               {**det0, "why": msg, "counts": {str(k): int(v) for k, v in c2.items()}})
-    v = r.get_tagged_results()["state"][-1].to_qobj()
-    d = state_dev(v, res.states[-1])
-    R.watch("max_v2_legacy_dev", d)
-    if d > STATE_TOL:
-        R.bad({**sig0, "clause": "v2_equals_legacy", "why": "other", "program": "simultaneous_local_pi_pulses"},
-              {**det0, "deviation": d})
+    v = v2_last(R, r, "state", sig0, det0)
+    if v is not None:
+        d = state_dev(v.to_qobj(), res.states[-1])
+        R.watch("max_v2_legacy_dev", d)
+        if d > STATE_TOL:
+            R.bad({**sig0, "clause": "v2_equals_legacy", "why": "other", "program": "simultaneous_local_pi_pulses"},
+                  {**det0, "deviation": d})
     return R.out()
 
 
@@ -452,11 +467,16 @@ def emu_zero_worker(rec):
         R.bad({**sig0, "clause": "v2_runs", "exc": type(e).__name__,
                "why": classify_v2_exception(e, True, False, T, len(eb), False)}, {**det0, "error": str(e)[:300]})
         return R.out()
-    worst = max(state_dev(s.to_qobj(), ket) for s in r.get_tagged_results()["state"])
-    R.watch("max_zero_drive_dev", worst)
-    if worst > 1e-6:
-        R.bad({**sig0, "clause": "zero_drive_unchanged", "api": "QutipBackendV2.run"}, {**det0, "deviation": worst})
-    msg = check_counts(r.get_tagged_results()["bitstrings"][-1], p, N, n, slack=2)
+    if v2_last(R, r, "state", sig0, det0) is not None:
+        worst = max(state_dev(s.to_qobj(), ket) for s in r.get_tagged_results()["state"])
+        R.watch("max_zero_drive_dev", worst)
+        if worst > 1e-6:
+            R.bad({**sig0, "clause": "zero_drive_unchanged", "api": "QutipBackendV2.run"}, {**det0, "deviation": worst})
+        if len(r.get_tagged_results()["state"]) < 3:
+            R.bad({**sig0, "clause": "v2_holds_requested_times", "what": "count"},
+                  {**det0, "stored": [float(t) for t in r.get_result_times("state")], "requested": [0.0, 0.5, 1.0]})
+    c2 = v2_last(R, r, "bitstrings", sig0, det0)
+    msg = check_counts(c2, p, N, n, slack=2) if c2 is not None else None
     if msg:
         R.bad({**sig0, "clause": "bit_convention", "api": "QutipBackendV2.run/BitStrings"}, {**det0, "why": msg})
     return R.out()
@@ -488,6 +508,16 @@ def emu_spam_worker(rec):
         if exp is not None and sd != exp:
             R.bad({**sig0, "clause": "detection_errors", "api": "QutipEmulator.run/NoisyResults", "f": list(f)},
                   {**det0, "got": sd, "expected": exp, "time_index": k})
+        if exp is not None:
+            # the "state" of a NoisyResults is the diagonal pseudo-density in the documented state-vector order
+            # (ground-rydberg: r = index 0, so the all-zero bitstring gg..g is the LAST basis vector)
+            R.tests += 1
+            diag = np.real(res.get_state(res._sim_times[k]).diag())
+            want = np.zeros(2 ** n)
+            want[(2 ** n - 1) if eps == 0 else 0] = 1.0
+            if not np.allclose(diag, want, atol=1e-12):
+                R.bad({**sig0, "clause": "bit_convention", "api": "NoisyResults.get_state"},
+                      {**det0, "diag": diag.tolist(), "expected": want.tolist()})
         if sum(r_.bitstring_counts.values()) != runs * spr:
             R.bad({**sig0, "clause": "sampling", "api": "QutipEmulator.run/NoisyResults"},
                   {**det0, "counts": dict(r_.bitstring_counts), "expected_total": runs * spr})
@@ -555,8 +585,9 @@ def times_worker(rec):
                "why": classify_v2_exception(e, asks_end, multi_default, T, 2, False)},
               {**det0, "error": str(e)[:300], "T_overshoots": overshoots(T)})
         return R.out()
-    stored = [float(t) for t in r.get_result_times("state")]
-    states = r.get_tagged_results()["state"]
+    tagged = r.get_tagged_results()
+    states = tagged.get("state", [])                      # nothing stored at all = nothing held
+    stored = [float(t) for t in r.get_result_times("state")] if states else []
     # (a) a state is held at every required time; (b) times ascending, inside [0, 1]
     tol = 0.5 / T + 1e-12
     required = [j / T for j in range(T + 1)] if (rec["full"] and rd == 1) else \
@@ -573,7 +604,7 @@ def times_worker(rec):
         R.bad({**sig0, "clause": "v2_times_ascending"}, {**det0, "stored": stored[:20]})
     R.obs["extra_stored_times"] = float(sum(1 for t in stored if not any(abs(t - q) <= tol for q in required)))
     # (c) every stored state equals the legacy state at the same absolute time
-    times_us = sorted({min(t * T / 1000, T / 1000) for t in stored})
+    times_us = sorted({min(max(t, 0.0) * T / 1000, T / 1000) for t in stored}) or [T / 1000]
     em = QutipEmulator.from_sequence(seq, sampling_rate=1 / rd, evaluation_times=times_us)
     lres = em.run()
     sim_t = np.asarray(lres._sim_times, dtype=float)
@@ -605,7 +636,7 @@ def times_worker(rec):
                   {**det0, "sum": s1})
             break
     # (d) sampled bitstrings of V2
-    for c in r.get_tagged_results()["bitstrings"]:
+    for c in tagged.get("bitstrings", []):
         R.tests += 1
         if sum(c.values()) != nshots or any(len(str(k)) != n or set(str(k)) - {"0", "1"} for k in c):
             R.bad({**sig0, "clause": "sampling", "api": "QutipBackendV2.run/BitStrings"},
@@ -635,6 +666,19 @@ def times_worker(rec):
                 worst = max(worst, state_dev(alt.states[j], lres.states[i]))
         if worst > STATE_TOL:
             R.bad({**sig0, "clause": "legacy_evaluation_times", "choice": "Full", "what": "state"}, {**det0, "deviation": worst})
+    elif pick == 3 and T // rd >= 8:
+        R.tests += 2
+        alt = QutipEmulator.from_sequence(seq, sampling_rate=1 / rd, evaluation_times=0.5).run()
+        at = np.asarray(alt._sim_times, dtype=float)
+        nfull = len(em.sampling_times)
+        if (abs(at[0]) > 0 or abs(at[-1] - T / 1000) > 1e-12 or np.any(np.diff(at) <= 0)
+                or not (nfull // 2 - 1 <= len(at) <= nfull // 2 + 2)
+                or any(np.min(np.abs(em.sampling_times - x)) > 1e-12 for x in at[:-1])):
+            R.bad({**sig0, "clause": "legacy_evaluation_times", "choice": "float"},
+                  {**det0, "n_times": len(at), "n_sampling_times": nfull})
+        d = state_dev(alt.states[-1], lres.states[-1])
+        if d > STATE_TOL:
+            R.bad({**sig0, "clause": "legacy_evaluation_times", "choice": "float", "what": "state"}, {**det0, "deviation": d})
     elif pick == 2:
         R.tests += 1
         ec = EmulatorConfig(sampling_rate=1 / rd, evaluation_times=list(times_us))
@@ -748,13 +792,15 @@ def qubit_worker(rec):
     try:
         r = QutipBackendV2(seq, config=QutipConfig(observables=[StateResult(evaluation_times=[0.5]),
                                                                  BitStrings(num_shots=8)])).run()
-        v = r.get_tagged_results()["state"][-1].to_qobj()
-        d = state_dev(v, res.states[-1])
-        if d > STATE_TOL:
-            R.bad({**sig0, "clause": "v2_equals_legacy", "why": "drive_after_idle" if idle_before_pulse else "other"},
-                  {**det0, "deviation": d})
-        R.watch("max_v2_legacy_dev_after_idle(finding class)" if idle_before_pulse else "max_v2_legacy_dev", d)
-        check_physical(R, v, {**sig0, "api": "QutipBackendV2.run"}, det0, noisy=False)
+        v = v2_last(R, r, "state", sig0, det0)
+        if v is not None:
+            v = v.to_qobj()
+            d = state_dev(v, res.states[-1])
+            if d > STATE_TOL:
+                R.bad({**sig0, "clause": "v2_equals_legacy", "why": "drive_after_idle" if idle_before_pulse else "other"},
+                      {**det0, "deviation": d})
+            R.watch("max_v2_legacy_dev_after_idle(finding class)" if idle_before_pulse else "max_v2_legacy_dev", d)
+            check_physical(R, v, {**sig0, "api": "QutipBackendV2.run"}, det0, noisy=False)
     except Exception as e:  # noqa: BLE001
         R.bad({**sig0, "clause": "v2_runs", "exc": type(e).__name__,
                "why": classify_v2_exception(e, True, False, T, 2, False)}, {**det0, "error": str(e)[:300]})
@@ -772,13 +818,15 @@ def qubit_worker(rec):
             R.bad({**sign, "clause": "distribution_sums_to_one", "api": "QutipEmulator.run/sampling_dist"}, {**det0, "sum": s1})
         try:
             rn = QutipBackendV2(seq, config=QutipConfig(observables=[StateResult()], noise_model=nm)).run()
-            vn = rn.get_tagged_results()["state"][-1].to_qobj()
-            check_physical(R, vn, {**sign, "api": "QutipBackendV2.run"}, det0, noisy=True)
-            d = state_dev(vn, resn.states[-1])
-            if d > STATE_TOL:
-                R.bad({**sign, "clause": "v2_equals_legacy", "why": "drive_after_idle" if idle_before_pulse else "other"},
-                      {**det0, "deviation": d})
-            R.watch("max_v2_legacy_dev_after_idle(finding class)" if idle_before_pulse else "max_v2_legacy_dev", d)
+            vn = v2_last(R, rn, "state", sign, det0)
+            if vn is not None:
+                vn = vn.to_qobj()
+                check_physical(R, vn, {**sign, "api": "QutipBackendV2.run"}, det0, noisy=True)
+                d = state_dev(vn, resn.states[-1])
+                if d > STATE_TOL:
+                    R.bad({**sign, "clause": "v2_equals_legacy",
+                           "why": "drive_after_idle" if idle_before_pulse else "other"}, {**det0, "deviation": d})
+                R.watch("max_v2_legacy_dev_after_idle(finding class)" if idle_before_pulse else "max_v2_legacy_dev", d)
         except Exception as e:  # noqa: BLE001
             R.bad({**sign, "clause": "v2_runs", "exc": type(e).__name__,
                    "why": classify_v2_exception(e, True, False, T, 2, False)}, {**det0, "error": str(e)[:300]})
@@ -805,8 +853,9 @@ def stochastic_worker(rec):
     R.tests += 1
     try:
         r = QutipBackendV2(seq, config=QutipConfig(observables=[StateResult()], noise_model=nm)).run()
-        st = r.get_tagged_results()["state"][-1].to_qobj()
-        check_physical(R, st, {**sig0, "api": "QutipBackendV2.run"}, {"point": rec}, noisy=True)
+        st = v2_last(R, r, "state", sig0, {"point": rec})
+        if st is not None:
+            check_physical(R, st.to_qobj(), {**sig0, "api": "QutipBackendV2.run"}, {"point": rec}, noisy=True)
     except Exception as e:  # noqa: BLE001
         R.bad({**sig0, "clause": "v2_runs", "exc": type(e).__name__,
                "why": classify_v2_exception(e, True, False, 200, nlev, True)}, {"point": rec, "error": str(e)[:300]})
@@ -891,7 +940,10 @@ def run(tier):
     else:
         stage("bits-n123", "EmuBits", {"NSet": "{1, 2, 3}", "Configs": CONFIGS, "Weights": "{1, 2, 3, 4}",
                                        "Flips": "{<<0,0>>, <<4,0>>, <<0,4>>, <<4,4>>, <<1,2>>, <<2,1>>, <<1,0>>, <<0,2>>}",
-                                       "MixFlips": "{<<0,0>>, <<4,4>>, <<1,2>>}"}, BITS_LAWS, bits_jobs)
+                                       "MixFlips": "{<<0,0>>}"}, BITS_LAWS, bits_jobs)
+        stage("bits-n123-mixflips", "EmuBits", {"NSet": "{1, 2, 3}", "Configs": CONFIGS_UPTO3, "Weights": "{2}",
+                                                "Flips": "{<<4,4>>, <<1,2>>}", "MixFlips": "{<<4,4>>, <<1,2>>}"},
+              BITS_LAWS, bits_jobs)
         stage("bits-n4", "EmuBits", {"NSet": "{4}", "Configs": CONFIGS, "Weights": "{4}",
                                      "Flips": "{<<0,0>>, <<4,0>>, <<0,4>>, <<2,1>>}", "MixFlips": "{}"},
               BITS_LAWS, bits_jobs)
@@ -904,7 +956,7 @@ def run(tier):
     if quick:
         stage("times", "EmuTimes", {**tconst, "TAll": "5..22", "TDiag": "23..180", "TDef": "5..260"}, TIMES_LAWS, tjobs)
     else:
-        stage("times", "EmuTimes", {**tconst, "TAll": "5..100", "TDiag": "101..2000", "TDef": "5..2000"},
+        stage("times", "EmuTimes", {**tconst, "TAll": "5..80", "TDiag": "81..2000", "TDef": "5..2000"},
               TIMES_LAWS, tjobs)
 
     # ---- Clifford points: Rabi quarter periods, zero drive, detuned idle periods, three bases
@@ -960,8 +1012,49 @@ def run(tier):
         "isolated atoms = 2000 um apart on MockDevice (interaction < 1e-6 rad/us)",
         "the area of a constant pulse is defined up to Omega * 1 ns (spline through 1 ns samples): populations are "
         "compared within that band",
-        "same state = max entry deviation <= 2e-3 at the same absolute time (ODE solver accuracy)",
+        "same state = max entry deviation <= 5e-3 at the same absolute time (ODE solver accuracy)",
         "statistical clauses use 6-sigma bounds on samples seeded from VERIF_SEED",
         "norm / trace / Hermiticity / positivity are monitored on the runs, not decided by a reference",
         "QutipResult with a 3-level state measured in a basis that is not its own and not 'all' is unreachable from a "
         "Sequence and left out"])
+
+
+def replay(path):
+    """Re-run the lattice point of a replay file written by Verdict.finish (for `./check C11 --replay`, if the
+    coordinator wires harness.main.replay to it): 1 + VIOLATION line if the recorded clause fails again."""
+    doc = json.load(open(path))
+    pt, clause = doc["detail"]["point"], doc["signature"]["clause"]
+    if "ops" in pt:
+        workers = [qubit_worker]
+    elif "T" in pt:
+        workers = [times_worker]
+    elif "noise" in pt:
+        workers = [stochastic_worker]
+    else:
+        workers = [bits_worker, emu_prep_worker, emu_zero_worker, emu_spam_worker]
+        if doc["signature"].get("level") == "emulator":
+            workers = workers[1:]
+        else:
+            workers = workers[:1]
+    known = json.load(open(os.path.join(HERE, "C11.findings.json")))
+    from .. import findings
+    hit = 0
+    for w in workers:
+        try:
+            out = w(pt)
+        except Exception as e:  # noqa: BLE001  (a worker that does not apply to this point)
+            print(f"{w.__name__}: not applicable ({type(e).__name__})")
+            continue
+        if out.get("crash"):
+            print(f"{w.__name__}: {out['crash'][:300]}")
+            continue
+        for sig, detail in out["reports"]:
+            kf = findings.match("C11", sig, findings.load() + known)
+            print(("KNOWN-FINDING " + kf["id"]) if kf else "FAILS", json.dumps(sig), json.dumps(detail, default=str)[:400])
+            if kf is None and sig.get("clause") == clause:
+                hit += 1
+    if hit:
+        print(f"VIOLATION property=C11 replay={path}")
+        return 1
+    print("not reproduced")
+    return 0
